@@ -303,9 +303,9 @@ func runConc(payload string) string {
 var concWorkers, concRounds = 0, 3
 
 func genConc(g *G, tier string, emit func(string)) {
-	n := 250
+	n := 600
 	if tier == "thorough" {
-		n = 3000
+		n = 12000
 	}
 	if s := os.Getenv("VERIF_CONC_ROUNDS"); s != "" {
 		concRounds, _ = strconv.Atoi(s)
